@@ -13,8 +13,19 @@ type Ty struct {
 	K    string // int int8 uint8 uint32 bool string slice map ptr func any
 	Elem *Ty    // slice element / map value
 	Key  *Ty    // map key
-	Name string // struct type name for ptr; for func: signature id
+	Name string // struct type name for ptr; for func: signature id; interface name for iface
 	Sig  *FuncSig
+	// Alias: the type is written in source by this name (a named or alias type declared in
+	// Prog.TypeDefs); its meaning is the underlying type
+	Alias string
+}
+
+// TypeDef: type Name Under   or   type Name = StructName
+type TypeDef struct {
+	Name    string
+	Under   *Ty
+	Struct  string
+	IsAlias bool
 }
 
 type FuncSig struct {
@@ -48,7 +59,12 @@ func (t *Ty) SpecInt() string { // FixedWidth type name
 
 // Src renders the type; goMode spells int as int32.
 func (t *Ty) Src(goMode bool) string {
+	if t.Alias != "" {
+		return t.Alias
+	}
 	switch t.K {
+	case "iface":
+		return t.Name
 	case "int":
 		if goMode {
 			return "int32"
@@ -94,6 +110,8 @@ func (t *Ty) zeroNode() map[string]any {
 		return map[string]any{"k": "zero", "zt": "str", "ty": ""}
 	case t.K == "slice", t.K == "map", t.K == "ptr", t.K == "func":
 		return map[string]any{"k": "zero", "zt": t.K, "ty": ""}
+	case t.K == "iface": // an interface value is the reference it holds
+		return map[string]any{"k": "zero", "zt": "ptr", "ty": ""}
 	}
 	return map[string]any{"k": "zero", "zt": "nil", "ty": ""}
 }
@@ -199,6 +217,7 @@ type Prog struct {
 	Pkg     string
 	Structs []*StructDef
 	Ifaces  []*Iface
+	TypeDefs []*TypeDef
 	Globals []*S // package-level var declarations (in source order)
 	Funcs   []*Func
 	Inits   []*Func
@@ -744,6 +763,15 @@ func (p *printer) typeDecls(prog *Prog) {
 			p.nl()
 		}
 		p.w("}")
+		p.nl()
+		p.nl()
+	}
+	for _, td := range prog.TypeDefs {
+		if td.IsAlias {
+			p.w("type " + td.Name + " = " + td.Struct)
+		} else {
+			p.w("type " + td.Name + " " + td.Under.Src(p.goMode))
+		}
 		p.nl()
 		p.nl()
 	}
